@@ -75,6 +75,16 @@ def main(argv):
         rc, out, wall = sh("./check %s quick" % pid, env=env, cwd=VERIF, timeout=3600)
         res["quick"] = {"exit": rc, "wall_s": round(wall, 1),
                         "lines": [l for l in out.split("\n") if l.startswith(("VIOLATION", "violation:", "unchecked:", "KNOWN-FINDING"))][:12]}
+        # keep the first concrete failing input as a corpus entry (replayed first on every later run)
+        m = [l for l in out.split("\n") if l.startswith("VIOLATION") and "no-failing-input-found" not in l]
+        if rc == 1 and m:
+            rp = m[0].split("replay=")[1].split()[0]
+            try:
+                data = json.load(open(rp, encoding="utf-8"))
+                if data.get("kind") not in ("no-failing-input-found", "correspondence"):
+                    json.dump(data, open(os.path.join(dst, "replay.json"), "w", encoding="utf-8"), indent=1, default=str)
+            except Exception:  # noqa: BLE001
+                pass
         if rc == 0 and "--no-thorough" not in argv:
             rc, out, wall = sh("./check %s thorough" % pid, env=env, cwd=VERIF, timeout=7200)
             res["thorough"] = {"exit": rc, "wall_s": round(wall, 1),
